@@ -222,6 +222,7 @@ func (b basisKind) code() int {
 type world struct {
 	n           *consensus.Network
 	hn, rn      *rhpc.Node
+	bystander   *rhpc.Node // unconfirmed worlds: owner of an unrelated transaction in the renter's pool
 	h           *rhpc.Host
 	ht, rt      *tracer
 	hc          *hostContractor
@@ -255,6 +256,11 @@ func newWorld(basis basisKind, unconfirmed bool) *world {
 		WrapContractor: func(x rhp4.Contractor) rhp4.Contractor { w.hc = &hostContractor{Contractor: x, t: w.ht}; return w.hc },
 		WrapChain:      func(x rhp4.ChainManager) rhp4.ChainManager { return &hostChain{ChainManager: x, t: w.ht} },
 	})
+	if unconfirmed {
+		w.bystander, err = rhpc.NewNode(n, genesis)
+		must(err)
+		must(w.hn.Mine(w.bystander.W.Address(), 3))
+	}
 	// several outputs for each wallet
 	must(w.hn.Mine(w.rn.W.Address(), 12))
 	must(w.hn.Mine(w.hn.W.Address(), 12))
@@ -268,6 +274,9 @@ func newWorld(basis basisKind, unconfirmed bool) *world {
 }
 
 func (w *world) close() {
+	if w.bystander != nil {
+		w.bystander.Close()
+	}
 	w.h.Close()
 	w.hn.Close()
 	w.rn.Close()
